@@ -16,6 +16,8 @@ pub fn parse_rpu_file<P: AsRef<Path>>(input: P) -> Result<Vec<DoviRpu>> {
     let mut reader = BufReader::new(rpu_file);
 
     let chunk_size = 100_000;
+    #[cfg(feature = "verif_hooks")]
+    let chunk_size = verif_chunk_size("DOVI_TOOL_VERIF_CHUNK_SIZE", chunk_size);
     let mut main_buf = vec![0; chunk_size];
     let mut chunk = Vec::with_capacity(chunk_size);
     let mut end = Vec::with_capacity(chunk_size);
@@ -134,4 +136,14 @@ pub fn parse_rpu_file<P: AsRef<Path>>(input: P) -> Result<Vec<DoviRpu>> {
             rpus.len()
         );
     }
+}
+
+/// Verification hook (feature `verif_hooks` only): read chunk size override from the environment.
+#[cfg(feature = "verif_hooks")]
+fn verif_chunk_size(var: &str, default: usize) -> usize {
+    std::env::var(var)
+        .ok()
+        .and_then(|v| v.parse::<usize>().ok())
+        .filter(|v| *v > 0)
+        .unwrap_or(default)
 }
